@@ -123,6 +123,15 @@ def check(facts, rep, tier, cfg):
         rep.ok("C08.R2", "flush-on-local-drop", where, "close queue < recv/start_send loop < poll_close when the flag is true")
     else:
         rep.bad("C08.R2", "flush-on-local-drop", where, "with the dropped-handle flag set the frames queued before the drop are not all sent (recv -> start_send loop after closing the queue and before poll_close) ")
+    cut_short = [ef for ef in results[1] if any(e.replace("may:", "") == "outq:recv" and i + 1 < len(ef) and ef[i + 1].startswith("bounded:")
+                                                for i, e in enumerate(ef))]
+    if cut_short:
+        rep.bad("C08.R2", "flush-until-queue-empty", where,
+                "the flush loop after a local drop takes frames from the closed outbound queue through a bounded/non-blocking poll (%s): "
+                "`recv()` can be Pending while frames are still queued (cooperative budget, wake-ups), so the loop can stop early and "
+                "frames queued before the drop are never transmitted" % [e for e in cut_short[0] if e.startswith("bounded:")][0])
+    else:
+        rep.ok("C08.R2", "flush-until-queue-empty", where, "the flush loop awaits recv() of the closed queue until it returns None")
     if any(idx(ef, "ws:start_send") is not None for ef in results[0]):
         rep.bad("C08.R2", "no-flush-on-failure", where, "frames are still written to the sink after a transport failure / peer close")
     else:
